@@ -300,6 +300,20 @@ def step (st : St) (toks : List String) : St × String :=
     if !Spec.effIncludesOK st.seen then (st, "false an effective includeSnapshotsFrom name is unknown or ambiguous")
     else if !groupsServed st.seen then (st, "false a binding of a group misses a kubernetes binding of the group")
     else (st, "true")
+  | ["oracle", "verdict", o] =>
+    -- the "rejected" clause on the DECLARED document (`Spec.mustReject`, theorem `rejects_spec`) against the
+    -- verdict the implementation showed: a document with a bad crontab, an invalid selector (object or
+    -- namespace, kubernetes / validating / mutating) or an unknown / ambiguous include must not load
+    let why : Option String :=
+      if st.v0 then (if st.d0.scheds.any (fun s => !s.parseOK || zeroStep s.crontab) then some "bad-crontab" else none)
+      else Spec.rejectReason st.d1
+    match kv? "out" [o] with
+    | some "ok" =>
+      match why with
+      | some w => (st, s!"false accepted a document that must be rejected: {w}")
+      | none => (st, "true")
+    | some _ => (st, "true")
+    | none => (st, "bad-op")
   | ["oracle", "reject", _, v] =>
     match kv? "verdict" [v] with
     | some "err" => (st, "true")
